@@ -511,6 +511,84 @@ theorem close_is_final (ls : List PLabel) (s : PT) (hr : ({} : PT).run true ls =
 example : ((({} : PT).run false [.callerCheck 0, .closeLock, .closeMark, .closeUnlock, .callerLock 0, .callerInsert 0, .callerUnlock 0]).map
     (fun s => (s.cpc, s.openConns, s.lateInserts))) = some (3, 1, 1) := by decide
 
+/-- the same protocol guards the pool of ReuseConnTransport (`newReusableConn` against `Close`): the model run with
+the regenerated position of the `t.closed` test in `newReusableConn` -/
+theorem reuse_close_is_final_src (ls : List PLabel) (s : PT)
+    (hr : ({} : PT).run (Gen.Facts.c07ReuseClosedCheckedUnderLock.getD false) ls = some s) :
+    s.lateInserts = 0 ∧ (s.cpc = 3 → s.openConns = 0) := by
+  have h : Gen.Facts.c07ReuseClosedCheckedUnderLock.getD false = true := by decide
+  rw [h] at hr
+  exact close_is_final ls s hr
+
+-- witness: the flag tested before the mutex is taken, a dial that completes while Close holds the mutex
+example : ((({} : PT).run false [.closeLock, .callerCheck 0, .closeMark, .closeUnlock, .callerLock 0, .callerInsert 0, .callerUnlock 0]).map
+    (fun s => (s.cpc, s.openConns, s.lateInserts))) = some (3, 1, 1) := by decide
+
+/-! ## Part E: a reader blocked inside a frame is still under the deadline it armed -/
+
+theorem fread_inv_step (mid : List FAct) (hm : FAct.clearDl ∉ mid) (s s' : FRead) (l : FLabel)
+    (hi : s.dl ≠ .none ∧ FAct.clearDl ∉ s.rest) (hs : s.step mid l = some s') : s'.dl ≠ .none ∧ FAct.clearDl ∉ s'.rest := by
+  obtain ⟨h1, h2⟩ := hi
+  cases l <;> simp only [FRead.step] at hs
+  case header =>
+    split at hs
+    · cases hs; exact ⟨h1, hm⟩
+    · cases hs
+  case act =>
+    split at hs
+    · split at hs
+      · cases hs; exact ⟨h1, h2⟩
+      · rename_i t he; rw [he] at h2; simp at h2
+      · rename_i t he; cases hs; rw [he] at h2
+        exact ⟨by simp, fun h => h2 (List.mem_cons_of_mem _ h)⟩
+      · rename_i t he; cases hs; rw [he] at h2
+        exact ⟨h1, fun h => h2 (List.mem_cons_of_mem _ h)⟩
+    · cases hs
+  case body =>
+    split at hs
+    · cases hs; exact ⟨h1, h2⟩
+    · cases hs
+  case expire =>
+    split at hs
+    · cases hs; exact ⟨h1, h2⟩
+    · cases hs
+
+theorem fread_inv_run (mid : List FAct) (hm : FAct.clearDl ∉ mid) (ls : List FLabel) :
+    ∀ (s s' : FRead), (s.dl ≠ .none ∧ FAct.clearDl ∉ s.rest) → s.run mid ls = some s' → (s'.dl ≠ .none ∧ FAct.clearDl ∉ s'.rest) := by
+  induction ls with
+  | nil => intro s s' hi hr; simp only [FRead.run, Option.some.injEq] at hr; subst hr; exact hi
+  | cons l ls ih =>
+    intro s s' hi hr
+    simp only [FRead.run] at hr
+    cases hs : s.step mid l with
+    | none => rw [hs] at hr; cases hr
+    | some s1 => rw [hs] at hr; exact ih s1 s' (fread_inv_step mid hm s s1 l hi hs) hr
+
+/-- **a frame cut short is still timed out.** If the frame reader never clears the deadline, then whatever deadline
+(`d`, not none: `reader_always_has_deadline`, `reuse_parked_is_covered`) the reader armed before it called the frame
+reader, in every reachable state a deadline is in force, and whenever the reader is blocked - for the header or, after a
+peer that sent the header or a part of the body went silent, for the rest of the frame - the expiry step is enabled. -/
+theorem frame_read_stays_under_deadline (mid : List FAct) (hm : FAct.clearDl ∉ mid) (d : Dl) (hd : d ≠ .none)
+    (ls : List FLabel) (s : FRead) (hr : ({ dl := d } : FRead).run mid ls = some s) :
+    s.dl ≠ .none ∧ ((s.phase = 0 ∨ s.phase = 2) → ∃ s', s.step mid .expire = some s' ∧ s'.phase = 4) := by
+  have hi := fread_inv_run mid hm ls _ s ⟨hd, by simp⟩ hr
+  refine ⟨hi.1, fun hp => ⟨{ s with phase := 4 }, ?_, rfl⟩⟩
+  simp [FRead.step, hp, hi.1]
+
+/-- the deadline calls of the frame readers as the source has them now (none) -/
+def frameReadCalls : List FAct := Gen.Facts.c07FrameReadDeadlineCalls.map FAct.ofCode
+
+theorem frame_read_never_clears_src : FAct.clearDl ∉ frameReadCalls := by decide
+
+theorem frame_read_stays_under_deadline_src (d : Dl) (hd : d ≠ .none) (ls : List FLabel) (s : FRead)
+    (hr : ({ dl := d } : FRead).run frameReadCalls ls = some s) :
+    s.dl ≠ .none ∧ ((s.phase = 0 ∨ s.phase = 2) → ∃ s', s.step frameReadCalls .expire = some s' ∧ s'.phase = 4) :=
+  frame_read_stays_under_deadline frameReadCalls frame_read_never_clears_src d hd ls s hr
+
+-- witness: the deadline cleared once the header is in: a peer that goes silent inside the frame holds the reader for ever
+example : ((({ dl := .short } : FRead).run [.clearDl] [.header, .act, .act]).map (fun s => (s.phase, s.dl, (s.step [.clearDl] .expire).isNone))) =
+    some (2, .none, true) := by decide
+
 /-! ## tie to the source: regenerated facts -/
 
 theorem facts_guard :
@@ -521,7 +599,7 @@ theorem facts_guard :
     Gen.Facts.c07ReuseNewConnAfterCloseRejected = some true ∧ Gen.Facts.c07LazyWaitCoversAll = some true ∧
     Gen.Facts.c07LazyDialBounded = some true ∧ Gen.Facts.c07LazyCloseShape = some true ∧
     Gen.Facts.c07PipelineCloseShape = some true ∧ Gen.Facts.c07PipelineClosedRejects = some true ∧
-    Gen.Facts.c07PipelineClosedCheckedUnderLock = some true ∧
+    Gen.Facts.c07PipelineClosedCheckedUnderLock = some true ∧ Gen.Facts.c07ReuseClosedCheckedUnderLock = some true ∧
     (∀ a ∈ [RAct.setIdleDl, .setIdle, .handOver], a ∈ Gen.Facts.c07ReuseReaderOrder.map RAct.ofCode) ∧
     Gen.Facts.c07UpstreamCtxArgs.isSome = true ∧ Gen.Facts.c07FallbackClosesBoth = some true ∧
     2 ≤ (Model.C07U.phasesOf Gen.Facts.c07UpstreamCtxArgs "udpWithFallback").length := by decide
